@@ -19,6 +19,15 @@ with distinct stamps; the Ttl policy ignores them).  A `bput` of two or more ite
 protocol (`bad-op`) when the first layer is an Lfu / Random memory layer or a Ttl-policy memory
 layer with a short default TTL.
 
+Values (`<hex>` above) may also be written `g<len>:<seed>` followed by any number of
+`^<pos>:<xx>` edits: the generated payload `genVal len seed` (byte i = `genByte seed i`) with byte
+`pos` xor-ed with `xx`, edits applied in order (`len` ≤ 2^28, `seed` < 2^32, `pos` < `len`,
+otherwise `bad-op`).  A truncation / extension of a generated payload is the same seed with another
+length.  Values longer than 64 bytes are ANSWERED as `#<len>:<fnv-1a 64 of the bytes, 16 hex digits>`
+(in `val …` and in each item of `vals …`), shorter ones as hex.  This keeps request and response
+lines short for payloads of hundreds of KiB; the model itself works on the full byte lists
+(the content hash is computed over every byte by Spec/Md5).
+
 A call whose lock trace requests the tracker lock while holding it is answered `timeout` (the
 real call never returns); the model of the fixed code never produces such a trace
 (`ml_no_self_deadlock`).  The content hash is RFC 1321 MD5 (Spec/Md5).
@@ -33,6 +42,11 @@ open Cascette.Model.MultiLayer
 structure DSt where
   env : Env
   st : State
+  /-- `hooks=` and `skip=` of the `begin` line -/
+  hk : String
+  skip : Nat
+  /-- digests already computed in this case: (value, `md5Nat value`), newest first, at most four -/
+  memo : List (List Nat × List Nat)
 
 def kv (pre : String) (t : String) : Option String :=
   if t.startsWith pre then some (t.drop pre.length).toString else none
@@ -45,6 +59,52 @@ def parsePolicy : String → Option MemCache.Policy
   | "random" => some .random | "ttl" => some .ttl | _ => none
 
 def md5Nat (v : List Nat) : List Nat := (Spec.Md5.md5 (v.map (BitVec.ofNat 8))).map (·.toNat)
+
+/-! ### generated payloads and abbreviated answers (same definitions in harness/src/bin/c12.rs) -/
+
+def genByte (seed i : Nat) : Nat := ((i * 2654435761 + seed * 2246822519 + 374761393) / 65536) % 256
+
+def genVal (len seed : Nat) : List Nat := (List.range len).map (genByte seed)
+
+def genMaxLen : Nat := 268435456
+def genMaxSeed : Nat := 4294967296
+
+/-- one `^<pos>:<xx>` edit: xor byte `pos` with `xx` -/
+def applyEdit (v : List Nat) (e : String) : Option (List Nat) :=
+  match e.splitOn ":" with
+  | [p, x] =>
+    match p.toNat?, parseHexNat x with
+    | some p, some [m] =>
+      match v[p]? with
+      | some b => some (v.set p (b ^^^ m))
+      | none => none
+    | _, _ => none
+  | _ => none
+
+/-- a value token: hex (`-` = empty) or `g<len>:<seed>[^<pos>:<xx>]…` -/
+def parseVal (s : String) : Option (List Nat) :=
+  if s.startsWith "g" then
+    match ((s.drop 1).toString).splitOn "^" with
+    | head :: edits =>
+      match head.splitOn ":" with
+      | [l, sd] =>
+        match l.toNat?, sd.toNat? with
+        | some l, some sd =>
+          if l ≤ genMaxLen ∧ sd < genMaxSeed then
+            edits.foldl (fun acc e => acc.bind (applyEdit · e)) (some (genVal l sd))
+          else none
+        | _, _ => none
+      | _ => none
+    | [] => none
+  else parseHexNat s
+
+def fnv64 (v : List Nat) : UInt64 :=
+  v.foldl (fun h x => (h ^^^ UInt64.ofNat x) * 0x100000001b3) 0xcbf29ce484222325
+
+/-- values up to 64 bytes in hex, longer ones as `#<len>:<fnv64>` -/
+def showVal (v : List Nat) : String :=
+  if (v.drop 64).isEmpty then hexOfNats v
+  else "#" ++ toString v.length ++ ":" ++ hexFixed 16 (fnv64 v).toNat
 
 def parseLayer (t : String) : Option Layer :=
   match t.splitOn ":" with
@@ -75,11 +135,19 @@ def parseStrategy (t : String) : Option Strategy :=
   | ["after", n] => n.toNat?.map .afterN
   | _ => none
 
-def parseHooks (t : String) (skip : Nat) : Option (Option Hooks) :=
+/-- `md5Nat` with a table of digests computed earlier in the case (the same payload is validated
+by several calls of a case; RFC 1321 over 256 KiB costs ~0.3 s here). Extensionally `md5Nat`:
+an entry is only ever `(v, md5Nat v)` and is found by equality of the whole byte list. -/
+def memoMd5 (memo : List (List Nat × List Nat)) (v : List Nat) : List Nat :=
+  match memo.find? (fun p => p.1 == v) with
+  | some p => p.2
+  | none => md5Nat v
+
+def parseHooks (H : List Nat → List Nat) (t : String) (skip : Nat) : Option (Option Hooks) :=
   match t with
   | "none" => some none
-  | "md5" => some (some (md5Hooks md5Nat skip))
-  | "ngdp" => some (some (md5Hooks md5Nat skip))
+  | "md5" => some (some (md5Hooks H skip))
+  | "ngdp" => some (some (md5Hooks H skip))
   | "noop" => some (some noopHooks)
   | "err" => some (some errHooks)
   | _ => none
@@ -91,7 +159,7 @@ def showErr : Err → String
   | .corruption => "err:corruption" | .backend => "err:backend"
 
 def showOpt : Option (List Nat) → String
-  | some v => "val " ++ hexOfNats v
+  | some v => "val " ++ showVal v
   | none => "none"
 
 def showOut : Out → String
@@ -99,7 +167,7 @@ def showOut : Out → String
   | .val o => showOpt o
   | .bool b => if b then "true" else "false"
   | .vals l => "vals " ++ (if l.isEmpty then "." else String.intercalate "|" (l.map (fun o => match o with
-      | some v => hexOfNats v | none => "none")))
+      | some v => showVal v | none => "none")))
   | .err e => showErr e
 
 def parseKeys (s : String) : Option (List Nat) :=
@@ -111,7 +179,7 @@ def parseKeys (s : String) : Option (List Nat) :=
 def parseItems (s : String) : Option (List (Nat × List Nat)) :=
   if s == "-" then some [] else
   (s.splitOn ",").foldr (fun t acc => match t.splitOn "=", acc with
-    | [k, v], some l => match k.toNat?, parseHexNat v with
+    | [k, v], some l => match k.toNat?, parseVal v with
       | some k, some v => some ((k, v) :: l)
       | _, _ => none
     | _, _ => none) (some [])
@@ -124,11 +192,11 @@ def parseCk (s : String) : Option (List Nat) :=
 
 def parseOp (toks : List String) : Option Op :=
   match toks with
-  | ["put", k, v] => match k.toNat?, parseHexNat v with
+  | ["put", k, v] => match k.toNat?, parseVal v with
     | some k, some v => some (.put k v) | _, _ => none
-  | ["putttl", k, v, c] => match k.toNat?, parseHexNat v, parseClass c with
+  | ["putttl", k, v, c] => match k.toNat?, parseVal v, parseClass c with
     | some k, some v, some c => some (.putTtl k v c) | _, _, _ => none
-  | ["putl", k, v, i] => match k.toNat?, parseHexNat v, i.toNat? with
+  | ["putl", k, v, i] => match k.toNat?, parseVal v, i.toNat? with
     | some k, some v, some i => some (.putToLayer k v i) | _, _, _ => none
   | ["get", k] => k.toNat?.map .get
   | ["getl", k, i] => match k.toNat?, i.toNat? with
@@ -139,14 +207,14 @@ def parseOp (toks : List String) : Option Op :=
   | ["clear"] => some .clear
   | ["bget", ks] => (parseKeys ks).map .batchGet
   | ["bput", kvs] => (parseItems kvs).map .batchPut
-  | ["putv", k, ck, v] => match k.toNat?, parseCk ck, parseHexNat v with
+  | ["putv", k, ck, v] => match k.toNat?, parseCk ck, parseVal v with
     | some k, some ck, some v => some (.putv k ck v) | _, _, _ => none
   | ["getv", k, ck] => match k.toNat? with
     | some k => if ck == "-" then some (.getv k none) else (parseCk ck).map (fun c => .getv k (some c))
     | none => none
   | ["fdel", i, k] => match i.toNat?, k.toNat? with
     | some i, some k => some (.fdel i k) | _, _ => none
-  | ["fset", i, k, v] => match i.toNat?, k.toNat?, parseHexNat v with
+  | ["fset", i, k, v] => match i.toNat?, k.toNat?, parseVal v with
     | some i, some k, some v => some (.fset i k v) | _, _, _ => none
   | _ => none
 
@@ -174,15 +242,32 @@ def outsideProtocol (s : State) : Op → Bool
     | _ => false
   | _ => false
 
+/-- the value the hooks of this call will be asked to hash, if any -/
+def hashedBy (s : State) : Op → Option (List Nat)
+  | .putv _ _ v => some v
+  | .getv k (some _) => firstHit (peeks s k)
+  | _ => none
+
+/-- the digest table extended by the value this call hashes (MD5 / NGDP hooks, value not exempt) -/
+def memoFor (ds : DSt) (op : Op) : List (List Nat × List Nat) :=
+  if ds.hk == "md5" || ds.hk == "ngdp" then
+    match hashedBy ds.st op with
+    | some v =>
+      if v.length > ds.skip || (ds.memo.any (fun p => p.1 == v)) then ds.memo
+      else ((v, md5Nat v) :: ds.memo).take 4
+    | none => ds.memo
+  else ds.memo
+
 def handle (d : Option DSt) (toks : List String) : Option DSt × String :=
   match toks with
   | ["begin", ls, st, hk, sk] =>
     match (kv "L=" ls).bind parseLayers, (kv "strat=" st).bind parseStrategy, (kv "skip=" sk).bind (·.toNat?) with
     | some layers, some strat, some skip =>
-      match (kv "hooks=" hk).bind (parseHooks · skip) with
-      | some hooks =>
+      match (kv "hooks=" hk).bind (fun h => (parseHooks md5Nat h skip).map (fun x => (h, x))) with
+      | some (hkind, hooks) =>
         if layers.isEmpty then (none, "err:config")
-        else (some { env := { strategy := strat, hooks := hooks, victims := detVictims }, st := init layers }, "ok")
+        else (some { env := { strategy := strat, hooks := hooks, victims := detVictims }, st := init layers,
+                     hk := hkind, skip := skip, memo := [] }, "ok")
       | none => (none, "bad-op")
     | none, some _, some _ =>
       -- a layer specification the configuration validation rejects
@@ -213,10 +298,14 @@ def handle (d : Option DSt) (toks : List String) : Option DSt × String :=
           | some _, none => false
           | none, _ => true
         if !okChoice then (d, "bad-choice") else
-        let env := { ds.env with victims := hintVictims ds.env.victims hint }
+        let memo := memoFor ds op
+        let hooks := match parseHooks (memoMd5 memo) ds.hk ds.skip with
+          | some h => h
+          | none => ds.env.hooks
+        let env := { ds.env with victims := hintVictims ds.env.victims hint, hooks := hooks }
         let r := step env ds.st op
-        if lockOk r.trace then (some { ds with st := r.st }, showOut r.out)
-        else (some { ds with st := r.st }, "timeout")
+        if lockOk r.trace then (some { ds with st := r.st, memo := memo }, showOut r.out)
+        else (some { ds with st := r.st, memo := memo }, "timeout")
 
 def main : IO Unit := do
   loopState (← IO.getStdin) (← IO.getStdout) handle (none : Option DSt)
